@@ -279,8 +279,8 @@ def adv_random(rng, n):
         a = rand_addr()
         lines.append("classify a=" + a)
         ctl = rng.choice(list(ADV_CTL.values()) + ["name:node.example", rand_addr()])
-        lines.append("publish mode=%s allow=%d ctl=%s stun=%s" % (rng.choice(["on", "warn", "off"]), rng.randrange(2), ctl,
-                                                                    a if rng.random() < 0.9 else "none"))
+        lines.append("publish mode=%s allow=%d ctl=%s stun=%s%s" % (rng.choice(["on", "warn", "off"]), rng.randrange(2), ctl,
+                                                                      a if rng.random() < 0.9 else "none", rng.choice(["", "", "", " prev=pub", " prev=priv"])))
     return lines
 
 
@@ -288,9 +288,10 @@ def adv_event_to_script(e):
     if e["op"] == "classify":
         return "classify a=" + adv_spec(e["fam"], e["a"])
     c = e["ctl"]
-    return "publish mode=%s allow=%d ctl=%s stun=%s" % (e["mode"], 1 if e["allow"] else 0,
-                                                        adv_spec(c["fam"], c["a"]) if c["fam"] else "name:" + c["host"],
-                                                        adv_spec(e["stun"]["fam"], e["stun"]["a"]) if e.get("stun_ok") else "none")
+    return "publish mode=%s allow=%d ctl=%s stun=%s%s" % (e["mode"], 1 if e["allow"] else 0,
+                                                          adv_spec(c["fam"], c["a"]) if c["fam"] else "name:" + c["host"],
+                                                          adv_spec(e["stun"]["fam"], e["stun"]["a"]) if e.get("stun_ok") else "none",
+                                                          "" if e.get("prev", "none") == "none" else " prev=" + e["prev"])
 
 
 def adv_validate(chk, lines, label):
@@ -327,7 +328,8 @@ def adv_run(chk):
                   "invariants C34_DesignMeetsContract, C34_ClassifierMeetsContract; every state is one case")
     adv_parallel_mc("Advertise", [("MC_Advertise_dev_mapped.cfg", "C34_ClassifierMeetsContract"), ("MC_Advertise_dev_mapped_pub.cfg", "C34_DesignMeetsContract"),
                                   ("MC_Advertise_dev_bench19.cfg", "C34_ClassifierMeetsContract"), ("MC_Advertise_dev_self.cfg", "C34_DesignMeetsContract"),
-                                  ("MC_Advertise_dev_warnleak.cfg", "C34_DesignMeetsContract"), ("MC_Advertise_reach_public.cfg", "Reach_PublicPublished"),
+                                  ("MC_Advertise_dev_warnleak.cfg", "C34_DesignMeetsContract"), ("MC_Advertise_dev_stale.cfg", "C34_DesignMeetsContract"),
+                                  ("MC_Advertise_reach_history.cfg", "Reach_OffAfterHistory"), ("MC_Advertise_reach_public.cfg", "Reach_PublicPublished"),
                                   ("MC_Advertise_reach_warnconflict.cfg", "Reach_WarnConflict")])
     lines, seen = [], set()
     for h in hists:
@@ -336,12 +338,12 @@ def adv_run(chk):
         if s["fam"] and spec not in seen:
             seen.add(spec)
             lines.append("classify a=" + spec)
-        lines.append("publish mode=%s allow=%d ctl=%s stun=%s" % (h["mode"], 1 if h["allow"] else 0, ADV_CTL[h["ctl"]], spec))
+        lines.append("publish mode=%s allow=%d ctl=%s stun=%s%s" % (h["mode"], 1 if h["allow"] else 0, ADV_CTL[h["ctl"]], spec, "" if h.get("prev", "none") == "none" else " prev=" + h["prev"]))
     log("[gen] %d TLC cases (%d distinct boundary addresses)" % (len(hists), len(seen)))
     adv_validate(chk, lines, "tlc-cases")
     adv_validate(chk, adv_random(chk.rng, 6000 if thorough else 800), "random")
     chk.cov["rule"] = ("cases = every state of spec/Advertise.tla (first/last address of each listed range, the neighbours just outside, IPv4-mapped "
-                       "forms, a few routable addresses; x auto mode x allow_private x control host x STUN success/failure) plus seeded random "
+                       "forms, a few routable addresses; x auto mode x allow_private x control host x STUN success/failure; x an earlier start of the same node that published a routable / a private address) plus seeded random "
                        "addresses biased to the range edges; non-trivial = a classification call on a distinct canonical address, or a node start "
                        "where STUN reported an address (distinct by mode, allow_private, control host, STUN address)")
     chk.assumptions += ["addresses reach the code in canonical text form (inet_ntop), as the statement's quantifier says",
